@@ -13,6 +13,12 @@
 (*    wcount, count) THROUGH Ser (pickling); Combine(r) is enabled once    *)
 (*    every rank has posted (the collective completes) and evaluates       *)
 (*    combine_variance with the NaN test selected by NaNTest.              *)
+(*    Weights are non-negative and may be exactly zero, at every position  *)
+(*    (first sample of a rank, every sample of a rank, all but one         *)
+(*    overall): ZeroGuard selects what Update does with the 0/0 of a zero  *)
+(*    weight met while nothing has been weighed ("guarded" | "unguarded",  *)
+(*    see ParallelStatsOps).  The statistics are those of the samples of   *)
+(*    positive weight; they are defined when one weight is positive.       *)
 (* Part = "trace" (Optimizer.compute_derived_trace):                       *)
 (*    Derive(r) appends the rank's next (value, weight); AllReduceConcat   *)
 (*    concatenates the per-rank lists in rank order; Reorder(r) restores   *)
@@ -30,6 +36,7 @@ CONSTANTS NRs,          \* set of rank counts explored
           NaNTest,      \* "identity" (as built) | "value" (repaired)
           StrideOff,    \* 0; 1 models the slicing error rank::size-1 (non-vacuity of EachSampleOnce)
           ReorderMode,  \* "byweight" (as built) | "bylayout" (repaired)
+          ZeroGuard,    \* "guarded" | "unguarded": the 0/0 of OnlineVariance.update (zero weight, nothing weighed yet)
           Ordered       \* TRUE: ranks take their Gather/Combine/Derive/Reorder steps in rank order (exports and
                         \* the combine-step-alone configs, where interleavings add nothing); FALSE: free
 VARIABLES nr, smp, mine, pc, acc, sent, res, dpc, cat, out
@@ -52,7 +59,7 @@ Init == /\ nr \in NRs
         /\ mine \in Assignments(nr, Len(smp))
         /\ IF Part = "var" /\ Jump
            THEN /\ pc  = [r \in 1..nr |-> Len(mine[r])]
-                /\ acc = [r \in 1..nr |-> FoldAcc(Acc0, SubSamples(smp, mine[r]), 1)]
+                /\ acc = [r \in 1..nr |-> FoldAccG(ZeroGuard, Acc0, SubSamples(smp, mine[r]), 1)]
            ELSE /\ pc  = [r \in 1..nr |-> 0]
                 /\ acc = [r \in 1..nr |-> Acc0]
         /\ sent = [r \in 1..nr |-> <<>>]
@@ -66,7 +73,7 @@ Update(r) == /\ Part = "var"
              /\ sent[r] = <<>>
              /\ pc[r] < Len(mine[r])
              /\ LET s == smp[mine[r][pc[r] + 1]]
-                IN  acc' = [acc EXCEPT ![r] = UpdAcc(acc[r], s.v, s.w)]
+                IN  acc' = [acc EXCEPT ![r] = UpdAccG(ZeroGuard, acc[r], s.v, s.w)]
              /\ pc' = [pc EXCEPT ![r] = pc[r] + 1]
              /\ UNCHANGED <<nr, smp, mine, sent, res, dpc, cat, out>>
 Gather(r) == /\ Part = "var"
@@ -143,22 +150,33 @@ AccIsTwoPass ==
         /\ acc[r].count = pc[r]
         /\ acc[r].wcount = SumW(p)
         /\ pc[r] = 0 => acc[r].mean = NoneV
-        /\ pc[r] > 0 => /\ acc[r].mean = WMean(p)
-                        /\ acc[r].M2 = TwoPassM2(p)
+        /\ (pc[r] > 0 /\ Defined(p)) => /\ acc[r].mean = WMean(p)
+                                        /\ acc[r].M2 = TwoPassM2(p)
+        \* only zero weights so far: counted, and no other mark (the mean is a placeholder nobody reads)
+        /\ (pc[r] > 0 /\ ~Defined(p)) => /\ acc[r].mean = RZero
+                                         /\ acc[r].M2 = RZero
 
 Finished(r) == res[r] # <<>>
 AnyFinished == \E r \in Ranks : Finished(r)
+\* (N counts every sample, of zero weight or not, as the code does; with N >= 2 and no positive weight the
+\*  statistics are 0/0 and the property says nothing)
+HasStats == N < 2 \/ Defined(smp)
 MeanIsWeightedMean ==
-    (Part = "var" /\ AnyFinished /\ N >= 2) =>
-        LET m == Num(WMean(smp)) IN \A r \in Ranks : Finished(r) => res[r][1].mean = m
+    (Part = "var" /\ AnyFinished /\ N >= 2 /\ Defined(smp)) =>
+        LET m == Num(WMean(PosSamples(smp))) IN \A r \in Ranks : Finished(r) => res[r][1].mean = m
+\* finite, and the two-pass variance of the samples of positive weight (a zero-weight sample contributes nothing)
 VarianceIsTwoPass ==
-    (Part = "var" /\ AnyFinished) =>
-        IF N >= 2 THEN LET v == Num(TwoPassVar(smp)) IN \A r \in Ranks : Finished(r) => res[r][1].var = v
+    (Part = "var" /\ AnyFinished /\ HasStats) =>
+        IF N >= 2 THEN LET v == Num(TwoPassVar(PosSamples(smp))) IN \A r \in Ranks : Finished(r) => res[r][1].var = v
         ELSE \A r \in Ranks : Finished(r) => IsNaNValue(res[r][1].var)
+\* lemma: leaving the zero-weight samples out or in gives the same two-pass statistics
+ZeroWeightLemma ==
+    (Part = "var" /\ Defined(smp)) => /\ WMean(smp) = WMean(PosSamples(smp))
+                                      /\ TwoPassVar(smp) = TwoPassVar(PosSamples(smp))
 \* whatever the number of ranks, the partition and the interleaving: the single-process result
 ScheduleIndependent ==
     (Part = "var" /\ AnyFinished) =>
-        LET one == SerialRes(smp) IN
+        LET one == SerialResG(ZeroGuard, smp) IN
         \A r \in Ranks : Finished(r) => SameX(res[r][1].var, one.var) /\ SameX(res[r][1].mean, one.mean)
 
 TraceInSampleOrder ==
@@ -171,13 +189,13 @@ SummariesEqualSerial ==
         /\ PairBagEq(out[r][1].tr, out[r][1].wt, [i \in 1..N |-> smp[i].v], [i \in 1..N |-> smp[i].w])
         /\ SumW(smp) # RZero => WMeanSeq(out[r][1].tr, out[r][1].wt) = WMean(smp)
 \* lemma used by Trace_ParallelStats: the moment form of the two-pass variance
-DirectVarLemma == (Part = "var" /\ N >= 1) => DirectVar(smp) = TwoPassVar(smp)
+DirectVarLemma == (Part = "var" /\ N >= 1 /\ Defined(smp)) => DirectVar(smp) = TwoPassVar(smp)
 \* every rank that reaches the end produces an output (no rank is stuck on an exception)
 NoError ==
-    Part = "var" => \A r \in Ranks : Finished(r) => res[r][1].var # ErrV
+    (Part = "var" /\ HasStats) => \A r \in Ranks : Finished(r) => res[r][1].var # ErrV
 
 FitsInv == \A r \in Ranks :
     /\ Fits(acc[r].wcount)
-    /\ acc[r].mean # NoneV => Fits(acc[r].mean) /\ Fits(acc[r].M2)
+    /\ (acc[r].mean # NoneV /\ acc[r].mean # NanVal) => Fits(acc[r].mean) /\ Fits(acc[r].M2)
     /\ (Finished(r) /\ IsNum(res[r][1].var)) => Fits(res[r][1].var[2])
 =============================================================================
